@@ -624,6 +624,19 @@ def run(ctx):
     fut2 = pool.submit(ctx.cxx, 'harness2.cpp', 'harness2', ['-Wno-invalid-offsetof'])
     fut3 = pool.submit(ctx.cxx, 'harness3.cpp', 'harness3')
     ctx.regen(GEN)
+    # the statement trees of every instantiation of pvCreate<Item, Items...> (deep embedding, props/C18/proto2coq.py)
+    gp_ = os.path.join(ctx.cdir, 'Gen_PvCreate.v')
+    try:
+        import importlib.util as ilu_
+        sp_ = ilu_.spec_from_file_location('c18_proto2coq', os.path.join(ctx.pdir, 'proto2coq.py')); p2c_ = ilu_.module_from_spec(sp_); sp_.loader.exec_module(p2c_)
+        txt_ = p2c_.translate(repo=ctx.repo)
+        if not os.path.exists(gp_) or open(gp_).read() != txt_ + '\n':
+            open(gp_, 'w').write(txt_ + '\n')
+        ctx.tie_obligations.append({'name': 'dump pvCreate instantiations (Gen_PvCreate)', 'ok': True})
+    except Exception as ex_:
+        if os.path.exists(gp_): os.remove(gp_)
+        ctx.tie_obligations.append({'name': 'dump pvCreate instantiations (Gen_PvCreate)', 'ok': False, 'error': str(ex_)[:300]})
+        ctx.stage('regen-pvcreate', False, str(ex_))
     ctx.prove()
     have_model = bool(ctx.stages.get('prove', {}).get('ok') and ctx.stages.get('regen', {}).get('ok') and ctx.extract())
     harness = fut1.result(); err1 = getattr(ctx, 'last_cxx_error', '')
